@@ -197,11 +197,15 @@ def nontrivial(M, scn):
 
 
 def codec_family(prop, tier, seed, planset, level="model_checking", san="plain", rule="", modules=(1, 2, 3), depth=None, exact=True,
-                 valcap=0, maxfail=6, invariants=("RoundTrip",), leafcap=0, dense=False):
+                 valcap=0, maxfail=6, invariants=("RoundTrip",), leafcap=0, dense=False, big=False):
     t0 = time.time()
     res = Result(prop)
     known = lib.load_findings(prop)
     depth = depth or (2 if tier == "quick" else 3)
+    if os.environ.get("VERIF_MODULES"):
+        modules = tuple(int(x) for x in os.environ["VERIF_MODULES"].split(","))
+    elif tier == "thorough" and big:
+        modules = tuple(modules) + (4,)
     for mi in modules:
         mod, scns, st = gen_codec(mi, planset, depth, exact, valcap=valcap, maxfail=maxfail, leafcap=leafcap, dense=dense)
         res.states += st["distinct"]
